@@ -118,6 +118,8 @@ func checkC10(w *World, c *Check, tier string) {
 	c.Trusted = []string{"go/types method sets, go/ssa", "apcheck prov.go"}
 	c.floor("C10.order", 12)
 	c.floor("C10.block", 3)
+	c.floor("C10.accessor", 56)
+	checkAccessors(w, c, "C10.accessor", []string{"IsObject", "IsLink", "GetID", "GetLink"})
 	pr := newProver(w)
 	dedup := w.Func("ItemCollectionDeduplication")
 	if dedup == nil {
@@ -1089,6 +1091,94 @@ func checkSplice(w *World, c *Check, pr *prover, rule string, f *ssa.Function) {
 				} else {
 					c.ok(rule, key, w.InstrPos(call), "the scan stops after recording the position")
 				}
+			}
+		}
+	}
+	// every decision about a member — recording its id as seen, or recording its position for deletion — is taken after
+	// the scan over the ids seen so far: a shortcut that decides from something else ("this is the public collection and
+	// I have met it already", a cached flag, a map keyed by the literal text) bypasses the equivalence the scan applies
+	// (scheme- and case-insensitive), so a variant spelling met first makes the canonical one count as new
+	if iriEq := w.Method("IRI", "Equals"); iriEq != nil {
+		lh := loopHeaders(f)
+		innermost := func(b *ssa.BasicBlock) *ssa.BasicBlock {
+			var inner *ssa.BasicBlock
+			for h := range lh[b] {
+				if inner == nil || len(loopBody(lh, h)) < len(loopBody(lh, inner)) {
+					inner = h
+				}
+			}
+			return inner
+		}
+		var reachesEq func(g *ssa.Function, d int) bool
+		reachesEq = func(g *ssa.Function, d int) bool {
+			if g == nil || g.Blocks == nil || d > 2 {
+				return false
+			}
+			for _, call := range callsIn(g) {
+				cal := call.Common().StaticCallee()
+				if cal == iriEq || (cal != nil && w.InPkg(cal) && cal != g && reachesEq(cal, d+1)) {
+					return true
+				}
+			}
+			return false
+		}
+		var scans []*ssa.BasicBlock
+		for _, call := range callsIn(f) {
+			cal := call.Common().StaticCallee()
+			if cal == nil {
+				continue
+			}
+			if cal == iriEq {
+				if h := innermost(call.Block()); h != nil {
+					scans = append(scans, h)
+				}
+				continue
+			}
+			if w.InPkg(cal) && cal != f {
+				takesList := false
+				for _, a := range call.Common().Args {
+					if isItemListValue(w, a) {
+						takesList = true
+					}
+				}
+				if takesList && reachesEq(cal, 0) {
+					scans = append(scans, call.Block())
+				}
+			}
+		}
+		nDec := 0
+		for _, call := range callsIn(f) {
+			bi, isB := call.Common().Value.(*ssa.Builtin)
+			if !isB || bi.Name() != "append" || len(call.Common().Args) != 2 || len(scans) == 0 || innermost(call.Block()) == nil {
+				continue
+			}
+			sl, isSl := types.Unalias(call.Type()).Underlying().(*types.Slice)
+			if !isSl {
+				continue
+			}
+			what := ""
+			if bt, isBt := sl.Elem().Underlying().(*types.Basic); isBt && bt.Info()&types.IsInteger != 0 {
+				what = "records a position for deletion"
+			} else if isItemListValue(w, call) && !spliceShape(call) {
+				if _, fromSlice := unwrap(call.Common().Args[0]).(*ssa.Slice); !fromSlice {
+					what = "records an id as seen"
+				}
+			}
+			if what == "" {
+				continue
+			}
+			nDec++
+			after := false
+			for _, sc := range scans {
+				if sc == call.Block() || sc.Dominates(call.Block()) {
+					after = true
+				}
+			}
+			key := fmt.Sprintf("%s:after-scan#%d", name, nDec)
+			if after {
+				c.ok(rule, key, w.InstrPos(call), what+" after the scan over the ids seen so far")
+			} else {
+				c.bad(rule, key, w.InstrPos(call), fmt.Sprintf("%s %s on a path that has not compared the entry with the ids seen so far: the equivalence the scan applies (scheme and host case are ignored) is bypassed, so an addressee met first in a variant spelling is returned — and kept in the lists — twice", name, what))
 			}
 		}
 	}
